@@ -49,7 +49,7 @@ m = {
  ],
  'checks': [],
  'not_applicable': [{'property_id': k, 'reason': v} for k, v in sorted(NA.items())],
- 'notes': 'Technique: deterministic simulation with fault injection (seeded search; one integer = one execution; replay files). Exit 2 = HARNESS-ERROR. Self-tests: selftest/determinism.py, selftest/sensitivity.py (own mutants + behaviour-preserving controls), selftest/findings.py (fixed defects replay on the pre-fix trees), tools/seeded.py rerun (independent seeded changes, DESIGN.md section 10). Five genuine defects were found and repaired by fix: commits in /repo (known_findings.json).',
+ 'notes': 'Technique: deterministic simulation with fault injection (seeded search; one integer = one execution; replay files). Exit 2 = HARNESS-ERROR. Self-tests: selftest/determinism.py, selftest/sensitivity.py (own mutants + behaviour-preserving controls), selftest/findings.py (fixed defects replay on the pre-fix trees), tools/seeded.py rerun (independent seeded changes, DESIGN.md section 10). Seven genuine defects were found and repaired by seven fix: commits in /repo (known_findings.json; DESIGN.md 9.1).',
 }
 m['engines'] = [e for e in m['engines'] if any(p in BUILT for p in e['serves_properties'])]
 for pid in sorted(CHECKS):
